@@ -30,6 +30,8 @@ func checkC05(c *Check, a *Anchors) {
 	c12DryImplied(c, a)
 	fpWriteDryGuarded(c, a, "queries-do-not-record")
 	methodResolution(c, a, "method-resolution-agrees")
+	c05ChecksumAtCheckTime(c, a)
+	c08CopyExhaustive(c, a) // the sources / generates entries of an included task are copies: a copy that drops Negate turns every exclude entry into an include
 }
 
 func atomWith(asg map[string]bool, parts ...string) (string, bool) {
@@ -157,13 +159,47 @@ func c05ForceTable(c *Check, a *Anchors) {
 	pe.Name = isExitName(pe)
 	pe.Run()
 	c.Paths += len(pe.Paths)
+	// the work phase starts after the top-level statement of the body that contains the up-to-date check
+	var workStart token.Pos
+	for _, st := range a.BodyClosure.Body.List {
+		has := false
+		ast.Inspect(st, func(nd ast.Node) bool {
+			if call, ok := nd.(*ast.CallExpr); ok && isFunc(callee(a.BodyClosure.Info(), call), PkgFingerprint, "", "IsTaskUpToDate") {
+				has = true
+			}
+			return true
+		})
+		if has {
+			workStart = st.End()
+		}
+	}
 	var bad []string
 	nChecked, nSkipped, nUpToDate := 0, 0, 0
 	for _, p := range pe.Paths {
 		if p.Panic {
 			continue
 		}
-		reachedWork := p.HasEvent("mkdir", "call") || p.HasEvent("prompt", "call")
+		reachedWork := p.HasEvent("mkdir", "call") || p.HasEvent("prompt", "call") || p.HasEvent("cmd", "call") || p.HasEvent("cmd", "defer")
+		// ... or executed anything written after the statement that holds the up-to-date check (the directory creation may be
+		// written in place and be skipped for a task without dir:, a task may have no commands)
+		if !reachedWork && workStart.IsValid() {
+			for _, bi := range p.Blocks {
+				if bi < 0 || bi >= len(fn.Blocks) {
+					continue
+				}
+				for _, in := range fn.Blocks[bi].Instrs {
+					if _, isRet := in.(*ssa.Return); isRet {
+						continue
+					}
+					if _, isJump := in.(*ssa.Jump); isJump {
+						continue
+					}
+					if in.Pos().IsValid() && in.Pos() > workStart {
+						reachedWork = true
+					}
+				}
+			}
+		}
 		checked := p.HasEvent("uptodate", "call")
 		fa, fak := p.Asg["field:Executor.ForceAll"]
 		fo, fok := p.Asg["field:Executor.Force"]
@@ -749,4 +785,157 @@ func c05Mtime(c *Check, a *Anchors) {
 		}
 	}
 	c.Decide(bad == "", "timestamp-uses-mtime", "checksum-ignores-mtime", up.Decl.Pos(), "no ModTime read is reachable from the checksum checker", "the checksum checker reads modification times in "+bad+": a pure mtime change would trigger a rebuild")
+}
+
+// checksumRoutine: the function of internal/fingerprint that creates the xxh3 hasher (reads and hashes the files).
+func checksumRoutine(c *Check) *FuncBody {
+	var fb *FuncBody
+	for _, b := range c.P.BodiesIn(PkgFingerprint) {
+		if b.Decl == nil {
+			continue
+		}
+		for _, call := range callsIn(b, false) {
+			if fn, ok := callee(b.Info(), call).(*types.Func); ok && fn.Pkg() != nil && fn.Pkg().Path() == "github.com/zeebo/xxh3" && fn.Name() == "New" {
+				fb = b
+			}
+		}
+	}
+	return fb
+}
+
+// c05ChecksumAtCheckTime: the verdict compares the recorded checksum with one computed from the files NOW.
+func c05ChecksumAtCheckTime(c *Check, a *Anchors) {
+	c.Rule("checksum-computed-at-check-time", "the value ChecksumChecker.IsUpToDate compares with (and records over) the stored checksum is, on every path, the result of the checksum routine that reads the files — obtained directly or through helpers every successful return of which yields that routine's result; a value taken from anywhere else (a variable of the compiled task, a cache) was computed before the task's dependencies ran and misses what they changed")
+	up := c.P.Func(PkgFingerprint, "ChecksumChecker", "IsUpToDate")
+	rt := checksumRoutine(c)
+	if up == nil || rt == nil {
+		c.Errorf("checksum-computed-at-check-time: IsUpToDate / checksum routine not found")
+		return
+	}
+	c.Fn(up)
+	info := up.Info()
+	// yields(h): every return of h that does not carry a non-nil error hands back, as first result, the routine's result
+	var yields func(h *FuncBody, depth int) (bool, string)
+	fromRoutine := func(hinfo *types.Info, h *FuncBody, e ast.Expr, depth int) (bool, string) {
+		e = ast.Unparen(e)
+		var judgeCall func(call *ast.CallExpr) (bool, string)
+		judgeCall = func(call *ast.CallExpr) (bool, string) {
+			fn, _ := callee(hinfo, call).(*types.Func)
+			d := c.P.DeclOf(fn)
+			if d == nil {
+				return false, "`" + exprStr(call) + "` is not the checksum routine"
+			}
+			if d == rt {
+				return true, ""
+			}
+			if depth <= 0 || d.Pkg.PkgPath != PkgFingerprint {
+				return false, "`" + exprStr(call) + "` is not the checksum routine"
+			}
+			return yields(d, depth-1)
+		}
+		if call, ok := e.(*ast.CallExpr); ok {
+			return judgeCall(call)
+		}
+		if v := varOf(hinfo, e); v != nil && !v.IsField() {
+			defs := defsOf(hinfo, h.Body, v)
+			if len(defs) == 0 {
+				return false, "`" + v.Name() + "` has no definition from the checksum routine"
+			}
+			for _, d := range defs {
+				call, ok := ast.Unparen(d).(*ast.CallExpr)
+				if !ok {
+					return false, "`" + v.Name() + "` is assigned `" + exprStr(d) + "`, which does not come from the checksum routine"
+				}
+				if ok2, why := judgeCall(call); !ok2 {
+					return false, why
+				}
+			}
+			return true, ""
+		}
+		return false, "`" + exprStr(e) + "` does not come from the checksum routine"
+	}
+	yields = func(h *FuncBody, depth int) (bool, string) {
+		c.Fn(h)
+		hinfo := h.Info()
+		rets := returnsOf(h.Body)
+		if len(rets) == 0 {
+			return false, fnDisplay(h) + " has no return"
+		}
+		for _, r := range rets {
+			switch len(r.Results) {
+			case 1:
+				// return f(x) of a multi-value call
+				if ok, why := fromRoutine(hinfo, h, r.Results[0], depth); !ok {
+					return false, fnDisplay(h) + ": " + why
+				}
+			case 2:
+				if !isNilLit(hinfo, r.Results[1]) {
+					continue // an error return: the value is not used
+				}
+				if ok, why := fromRoutine(hinfo, h, r.Results[0], depth); !ok {
+					return false, fnDisplay(h) + ": " + why
+				}
+			default:
+				return false, fnDisplay(h) + " returns an unexpected number of values"
+			}
+		}
+		return true, ""
+	}
+	// the compared value: `old == new` / `old != new` where one side derives from the stored file
+	n := 0
+	inspectBody(up.Body, func(nd ast.Node) bool {
+		be, ok := nd.(*ast.BinaryExpr)
+		if !ok || (be.Op != token.EQL && be.Op != token.NEQ) {
+			return true
+		}
+		lv, rv := varOf(info, be.X), varOf(info, be.Y)
+		if lv == nil || rv == nil || types.TypeString(lv.Type(), nil) != "string" || types.TypeString(rv.Type(), nil) != "string" {
+			return true
+		}
+		fromFile := func(v *types.Var) bool {
+			for _, d := range defsOf(info, up.Body, v) {
+				found := false
+				ast.Inspect(d, func(m ast.Node) bool {
+					if id, ok := m.(*ast.Ident); ok {
+						if dv, ok := info.Uses[id].(*types.Var); ok {
+							for _, dd := range defsOf(info, up.Body, dv) {
+								if call, ok := ast.Unparen(dd).(*ast.CallExpr); ok && isFunc(callee(info, call), "os", "", "ReadFile") {
+									found = true
+								}
+							}
+						}
+					}
+					return true
+				})
+				if found {
+					return true
+				}
+			}
+			return false
+		}
+		var fresh *types.Var
+		switch {
+		case fromFile(lv) && !fromFile(rv):
+			fresh = rv
+		case fromFile(rv) && !fromFile(lv):
+			fresh = lv
+		default:
+			return true
+		}
+		n++
+		ok2, why := true, ""
+		defs := defsOf(info, up.Body, fresh)
+		if len(defs) == 0 {
+			ok2, why = false, "no definition"
+		}
+		for _, d := range defs {
+			if o, w := fromRoutine(info, up, d, 2); !o {
+				ok2, why = false, w
+			}
+		}
+		c.Decide(ok2, "checksum-computed-at-check-time", ordinal(map[string]int{}, "compared-value@"+fnDisplay(up)), be.Pos(), "the compared checksum is computed from the files by the checksum routine during the check",
+			"the checksum that is compared with the stored one is not, on every path, computed from the files during the check: "+why+" — a value computed earlier (when the task was compiled, before its dependencies ran) does not see what the dependencies changed, so the commands are skipped although a source changed, and the stale value is recorded")
+		return true
+	})
+	c.Floor("checksum-computed-at-check-time", n, 1)
 }
